@@ -169,8 +169,8 @@ def _task_fork4(digits, d4=None):
     return chk.to_dict()
 
 
-def fork4_tasks(budget_quick=None, budget_thorough=None, seed_offset=9):
-    """the fork tasks of C02 (same case split): a seeded sample within a CPU budget (quick: 900
+def fork4_tasks(budget_quick=None, budget_thorough=None, seed_offset=9, limit_quick=None, limit_thorough=None):
+    """the fork tasks of C02 (same case split): a seeded sample within a CPU budget (quick: 600
     estimated CPU seconds, thorough: 9,000)"""
     import json
     import os
@@ -201,10 +201,12 @@ def fork4_tasks(budget_quick=None, budget_thorough=None, seed_offset=9):
     # thorough tier: a much larger sample, still without the few fork tasks that need 10+ GB
     # and minutes each (C02's complete run schedules those specially; their ratings are covered
     # by the abstract-score run above)
-    budget = float(os.environ.get("VERIF_C09_BUDGET_S", "900" if C.tier() == "quick" else "9000"))
+    budget = float(os.environ.get("VERIF_C09_BUDGET_S", "600" if C.tier() == "quick" else "9000"))
     if budget_quick is not None:
         budget = float(budget_quick if C.tier() == "quick" else budget_thorough)
     limit = 20 if C.tier() == "quick" else 60
+    if limit_quick is not None:
+        limit = limit_quick if C.tier() == "quick" else limit_thorough
     picked, spent = [], 0.0
     for t in order:
         c = 0.6 * costs.get(score4.task_label(t), 4.0) + 2.0
@@ -241,7 +243,7 @@ def main():
         chk.extra[key] = {k: sorted(v) for k, v in agg.items()}
     chk.input_model = "M-ASSIGN for v2 (27 sessions) and v3 (48 sessions), real constructors; v4: real parse/fill-in, base_score abstracted to an arbitrary one-decimal float in [0,10] (every band edge is then explored; the v4 score's own well-formedness is checked in every fork of C02)"
     chk.input_model += "; v4 additionally with REAL scoring inside macrovector forks (case split of C02: %d of %d fork tasks in this tier): the rating is compared with the score the same constructor reports" % (len(f4), f4total)
-    chk.bounds = ["none on the metric domain for v2/v3 and for the v4 run with abstracted score; v4 with real scoring: the fork tasks listed above (seeded sample within a CPU budget: 900 estimated CPU seconds in the quick tier, 9,000 in the thorough tier; the few fork tasks needing 10+ GB are left out)"]
+    chk.bounds = ["none on the metric domain for v2/v3 and for the v4 run with abstracted score; v4 with real scoring: the fork tasks listed above (seeded sample within a CPU budget: 600 estimated CPU seconds in the quick tier, 9,000 in the thorough tier; the few fork tasks needing 10+ GB are left out)"]
     chk.outside = ["v4: relation between metrics and score (C02)", "strings outside the grammar (C04)"]
     chk.stubs = ["CVSS4.compute_base_score replaced by 'base_score := arbitrary element of {0.0, 0.1, ..., 10.0}'"]
     chk.assumptions = ["official scales typed in harness/objects.py (FIRST v3.1 section 5 / v4.0 section 6; NVD v2 ranges)",
